@@ -23,7 +23,9 @@ type ContinuousPool struct {
 	stopWorkers        atomic.Bool
 }
 
-func (p *ContinuousPool) Start(ctx context.Context) {
+// Start starts the workers and returns the context they run under: it ends
+// when ctx ends or when the iteration limit has been reached.
+func (p *ContinuousPool) Start(ctx context.Context) context.Context {
 	workerCtx, workerCtxCancel := context.WithCancel(ctx)
 	p.workerCtxCancel = workerCtxCancel
 
@@ -42,6 +44,8 @@ func (p *ContinuousPool) Start(ctx context.Context) {
 		<-workerCtx.Done()
 		p.stopWorkers.Store(true)
 	}()
+
+	return workerCtx
 }
 
 func (p *ContinuousPool) maxIterationsReached() {
